@@ -104,7 +104,7 @@ def validate(cfg, ops):
                                                         and isinstance(op[4], bool)):
                 r = None
             ok = (isinstance(r, dict) and set(r) == {'base', 'sub', 'absd', 'rel', 'cls', 'enc', 'cb', 'fault'} and
-                  r['fault'] in (None, 'io', 'other') and
+                  r['fault'] in (None, 'io', 'nf', 'other') and
                   (r['rel'] is None or (r['rel'][0] == 'R' and len(r['rel']) == 2) or
                    (r['rel'][0] == 'A' and len(r['rel']) == 3 and r['rel'][1] in range(NDIRS))))
         else:
@@ -163,8 +163,8 @@ class PropSpec(object):
         """walk the path: ('found', loc, file, reloadable) | ('notfound',) | ('loadfunc',)"""
         for e in entries:
             if e[0] == 'F':
-                if r['fault'] == 'io':
-                    continue
+                if r['fault'] in ('io', 'nf'):
+                    continue        # the load function does not have it (IOError / TemplateNotFound)
                 if r['fault'] == 'other':
                     return ('loadfunc',)
             loc = locate(e, key)
@@ -319,7 +319,7 @@ def gen_req(rng, cfg, existing=()):
     elif x < 0.18:
         r['absd'] = rng.randrange(NDIRS)
     if any(e[0] == 'F' for e in cfg['path']) and rng.random() < 0.2:
-        r['fault'] = rng.choice(['io', 'other'])
+        r['fault'] = rng.choice(['io', 'other', 'nf'])
     if r['rel'] and r['rel'][-1] and r['sub']:
         r['sub'] = False
     return r
@@ -515,6 +515,9 @@ class RealRun(object):
         def load_fn(filename):
             if flags['fault'] == 'io':
                 raise IOError('injected')
+            if flags['fault'] == 'nf':
+                from genshi.template.loader import TemplateNotFound
+                raise TemplateNotFound(filename, [dirpath])
             if flags['fault'] == 'other':
                 raise LoadFuncError('injected')
             filepath = os.path.join(dirpath, filename)
@@ -702,7 +705,7 @@ def wire_history(cfg, ops):
         else:
             r = op[1]
             w = [Atom(op[0]), r['base'], B(r['sub']), N if r['absd'] is None else r['absd'], rel(r['rel']),
-                 r['cls'], r['enc'], B(r['cb']), N if r['fault'] is None else Atom(r['fault'])]
+                 r['cls'], r['enc'], B(r['cb']), N if r['fault'] is None else Atom('io' if r['fault'] == 'nf' else r['fault'])]
             if op[0] == 'LR':
                 w += [B(op[2]), op[3], B(op[4])]
             wops.append(w)
